@@ -115,6 +115,7 @@ fn counts(tier: Tier) -> Vec<Gen> {
         gen("127-fifo", tier.pick(256 * 8, 256 * 64, 96)),
         gen("127-power", tier.pick(POWER_SPACE_127, POWER_SPACE_127, 400)),
         gen("127-irq", 2 * 10),
+        gen("127-base", tier.pick(512, 16_384, 8)),
         gen("127-rxflow-symb", sw_symb(tier).cases),
         gen("127-rxflow", tier.pick(2 * 10 * 2 * 2 * 3, 2 * 10 * 2 * 2 * 3, 60)),
         gen("127-txflow", tier.pick(16_384, 262_144, 200)),
@@ -330,6 +331,20 @@ impl Monitor for C13 {
                         Err(why) => col.event(why),
                     }
                 }
+            }
+            "127-base" => {
+                // FIFO base addresses with free values (the reference driver only ever writes 0 / 0 in its
+                // composite calls; its register access mirrors the data sheet's RegFifoTxBaseAddr 0x0E /
+                // RegFifoRxBaseAddr 0x0F)
+                let cfg = Cfg { chip: CHIPS7[(idx % 2) as usize], tx_boost: false, rx_boost: false };
+                let (t, r) = match (idx / 2) % 4 {
+                    0 => (rng.below(256) as usize, rng.below(256) as usize),
+                    1 => (0x80, 0x00),
+                    2 => (0x00, rng.range(1, 256) as usize),
+                    _ => (rng.range(1, 256) as usize, 0x00),
+                };
+                let sc = s127::sc_base(cfg, rng, t, r);
+                s127::compare(col, &sc);
             }
             "127-irq" => {
                 let cfg = Cfg { chip: CHIPS7[(idx % 2) as usize], tx_boost: false, rx_boost: false };
